@@ -6,19 +6,28 @@
 (*   -simulate  : long signatures (up to 32 arguments) drawn from "themes" that exhaust one register file,    *)
 (*                or mix 4/8/16-byte stack arguments so that 16-byte arguments land after odd slots           *)
 EXTENDS ABI, Json
-CONSTANTS MaxArgs, Long, Reduced
+CONSTANTS MaxArgs, Long, Reduced, Slim
 
 Envs == {"x64-sysv", "x64-win", "x86-sysv", "x86-win", "a64-aapcs", "a64-apple"}
 Convs == {"cdecl", "stdcall", "fastcall", "vectorcall", "thiscall", "regparm1", "regparm2", "regparm3",
           "lightcall2", "lightcall3", "lightcall4", "x64sysv", "x64win"}
 (* one representative per distinct behaviour: the C-like ids collapse to one ABI on 64-bit targets *)
-Targets ==
+SlimTargets ==
+  { <<"x64-sysv", c>> : c \in {"cdecl", "x64win", "vectorcall", "lightcall2"} } \cup
+  { <<"x64-win", c>> : c \in {"cdecl", "vectorcall", "x64sysv"} } \cup
+  { <<"x86-sysv", c>> : c \in {"cdecl", "stdcall", "fastcall", "regparm1", "regparm2", "regparm3", "lightcall2"} } \cup
+  { <<"x86-win", c>> : c \in {"thiscall", "fastcall"} } \cup
+  { <<"a64-aapcs", c>> : c \in {"cdecl", "lightcall2"} } \cup
+  { <<"a64-apple", c>> : c \in {"cdecl"} }
+AllTargets ==
   { <<"x64-sysv", c>> : c \in {"cdecl", "fastcall", "regparm3", "x64sysv", "x64win", "vectorcall", "lightcall2", "lightcall3", "lightcall4"} } \cup
   { <<"x64-win", c>> : c \in {"cdecl", "stdcall", "thiscall", "x64win", "x64sysv", "vectorcall", "lightcall2"} } \cup
   { <<"x86-sysv", c>> : c \in {"cdecl", "stdcall", "fastcall", "thiscall", "regparm1", "regparm2", "regparm3", "vectorcall", "lightcall2", "lightcall4"} } \cup
   { <<"x86-win", c>> : c \in {"cdecl", "stdcall", "fastcall", "thiscall", "regparm3", "vectorcall"} } \cup
   { <<"a64-aapcs", c>> : c \in {"cdecl", "stdcall", "vectorcall", "regparm2", "lightcall2"} } \cup
   { <<"a64-apple", c>> : c \in {"cdecl", "fastcall", "lightcall3"} }
+
+Targets == IF Slim THEN SlimTargets ELSE AllTargets
 
 X86Types == {"i8", "u16", "i32", "i64", "u64", "f32", "f64", "f32x4", "i32x4", "f64x4", "f32x16", "i32x2", "mmx64", "k16"}
 A64Types == {"i8", "u16", "i32", "i64", "f32", "f64", "f32x4", "i8x16", "i32x2", "f32x2", "i8x4"}
